@@ -1,4 +1,5 @@
 import Clikit.Lemmas.Help
+import Clikit.Lemmas.HelpSame
 import Clikit.Props.C03
 /-!
 # C13 - help pages are complete, respect hiding, fit the terminal and never fail
@@ -241,13 +242,13 @@ theorem help_wrap_contract :
 /-- `args.is_argument_set("command")`: did the `help` command receive names? -/
 def helpArgSet (a : Args) : Bool := dictHas (S "command") a.args
 
-/-- The full statement: with the default wiring - `help <path>` resolves to the `help`
-command which receives the path as its `command` argument, the listener finds the `help`
-command and its lenient parse of `<path> sw` receives the same path, and the switch is an
-option that every format accepts without consuming anything (`ParseAgree`) - the two
-spellings show the same page.  `help_same_page_partial` proves exactly this; what is NOT
-proved is that the parser model satisfies the three parser facts for every well-formed
-default configuration (they are checked on every generated case by the correspondence). -/
+/-- The statement relative to three facts about the parser: `help <path>` resolves to the
+`help` command which receives the path as its `command` argument, the listener finds the `help`
+command and its lenient parse of `<path> sw` receives the same path, and the switch changes no
+parse outcome under any format (`ParseAgree`).  `help_same_page_partial` proves exactly this
+(for any switch token starting with `-` and any wiring of the `help` command);
+`help_same_page_default` below DISCHARGES the three facts for the default configuration from
+the shape of the command tree, with no hypothesis about what the parser returns. -/
 def help_same_page_full : Prop :=
   ∀ (cv : Conv) (app : List Cmd) (path : List Str) (sw : Str) (h : Cmd) (a a' : Args),
     (∀ p ∈ path, C03.nameLike p = true) → path.head? ≠ some helpName → sw.head? = some '-' →
@@ -323,6 +324,88 @@ theorem help_same_page_partial :
   have := (part1 cv app path sw hp hh hsw hagree).2 a a' hset
   simp only [helpTarget, hno, hyes, hres, hget, hpar, this, Bool.false_eq_true, if_false, if_true, beq_self_eq_true]
 
+/-- **`help_same_page_default`**: with the default wiring, `help <path>` and `<path> --help`
+(or `-h`) show the same page - no assumption about what the parser returns.  Hypotheses, all
+about the shape of the command tree `app`:
+
+* the path consists of name-like tokens and does not start with `help` (or an alias the `help`
+  format knows its command name by);
+* `application.get_command("help")` is a command `h` wired as in `DefaultApplicationConfig`
+  (`HelpCmd`: named `help`, not anonymous, no sub-commands, format = command name `help` + the
+  optional multi-valued string argument `command`, the switch declared as a flag);
+* every command of the tree declares the switch as a flag (`--help`/`-h` is a global option,
+  inherited by every format).
+
+Then: `help <path>` resolves to `h`, which receives the path (`resolve_help`); the listener's
+lenient parse of `<path> sw` re-inserts the omitted name `help` and receives the same path
+(`help_parse_switch`); the flag changes no parse outcome of any command of the tree
+(`parse_flag_appended`), and the help resolver only parses with commands of the tree
+(`helpResolve_congr_tree`) - so both lines select the same page, or fail with the same error. -/
+theorem help_same_page_default (cv : Conv) (app : List Cmd) (path : List Str) (sw : Str) (h : Cmd)
+    (hp : ∀ p ∈ path, C03.nameLike p = true)
+    (hh : ∀ p cn, path.head? = some p → cn ∈ h.fmt.cmds → cn.matches p = false)
+    (hsw : sw = S "-h" ∨ sw = S "--help")
+    (hget : (Coll.ofList app).get? helpName = some h)
+    (hc : HelpCmd h sw)
+    (htree : ∀ c, InTree app c → FlagOf c.fmt sw) :
+    helpTarget cv app (helpName :: path) = helpTarget cv app (path ++ [sw]) := by
+  have hnamed := namedColl_get?_of_ofList app helpName h hget hc.name hc.named
+  obtain ⟨cn, arg, hf⟩ := hc.helpFmt
+  have hh' : ∀ p, path.head? = some p → cn.matches p = false :=
+    fun p h1 => hh p cn h1 (by rw [hf.cmds]; exact List.mem_singleton.mpr rfl)
+  obtain ⟨a, hres, hset⟩ := resolve_help cv app h sw path hc hnamed hp
+  obtain ⟨a', hpar, hset'⟩ := help_parse_switch cv h.fmt true cn arg hf path sw hp hh' hc.flag
+  have hno : hasSwitch (helpName :: path) = false := by
+    apply hasSwitch_names
+    intro t hm
+    rcases List.mem_cons.mp hm with rfl | hm
+    · exact nameLike_helpName
+    · exact hp t hm
+  have hyes : hasSwitch (path ++ [sw]) = true := hasSwitch_appended path sw hp hsw
+  have hhead : path.head? ≠ some helpName := by
+    intro h1
+    have := hh' helpName h1
+    simp [CmdName.matches, hf.cname] at this
+  have hsw' : sw.head? = some '-' := by rcases hsw with rfl | rfl <;> rfl
+  obtain ⟨h1, h2, l1, l2, _⟩ := help_same_page app path sw hp hhead hsw'
+  have hr : helpResolve cv app (stripHelp (helpName :: path)) = helpResolve cv app (stripHelp (path ++ [sw])) := by
+    have hl : lead path = lead (path ++ [sw]) := by
+      rw [h1] at l1; rw [h2] at l2; rw [l1, l2]
+    rw [h1, h2]
+    exact helpResolve_congr_tree cv app _ _ hl
+      (fun c hc' len => (parse_flag_appended cv c.fmt len path sw hp (htree c hc')).symm)
+  have ht : handlerTarget cv app (helpName :: path) a = handlerTarget cv app (path ++ [sw]) a' := by
+    unfold handlerTarget
+    rw [hset, hset', hr]
+  simp only [helpTarget, hno, hyes, hres, hget, hpar, ht, Bool.false_eq_true, if_false, if_true, beq_self_eq_true]
+
+/-- the three parser facts `help_same_page_default` rests on, each from the shape of the tree
+alone: (1) appending a declared flag to a line of names changes no parse outcome, in either
+mode; (2) the help resolver gives the same answer for two lines with the same leading tokens
+whose parses by the commands OF THE TREE end alike; (3) the `help` command receives the path
+from `help <path>` (through the resolver) and from `<path> sw` (through the listener's lenient
+parse) - `command` is set exactly when the path is not empty. -/
+theorem help_same_page_facts (cv : Conv) (app : List Cmd) (path : List Str) (sw : Str) :
+    (∀ (f : Fmt) (len : Bool), (∀ p ∈ path, C03.nameLike p = true) → FlagOf f sw →
+      outcome (parse cv f len (path ++ [sw])) = outcome (parse cv f len path)) ∧
+    (∀ a b : List Str, lead a = lead b →
+      (∀ c, InTree app c → ∀ len, outcome (parse cv c.fmt len a) = outcome (parse cv c.fmt len b)) →
+      helpResolve cv app a = helpResolve cv app b) ∧
+    (∀ h : Cmd, (∀ p ∈ path, C03.nameLike p = true) →
+      (∀ p cn, path.head? = some p → cn ∈ h.fmt.cmds → cn.matches p = false) →
+      (namedColl app).get? helpName = some h → HelpCmd h sw →
+      ∃ a a', resolve cv app (helpName :: path) = .ok ([helpName], a) ∧
+        parse cv h.fmt true (path ++ [sw]) = .ok a' ∧
+        helpArgSet a = !path.isEmpty ∧ helpArgSet a' = !path.isEmpty) := by
+  refine ⟨fun f len hp hf => parse_flag_appended cv f len path sw hp hf,
+    fun a b hl h => helpResolve_congr_tree cv app a b hl h, ?_⟩
+  intro h hp hh hnamed hc
+  obtain ⟨cn, arg, hf⟩ := hc.helpFmt
+  obtain ⟨a, hres, hset⟩ := resolve_help cv app h sw path hc hnamed hp
+  obtain ⟨a', hpar, hset'⟩ := help_parse_switch cv h.fmt true cn arg hf path sw hp
+    (fun p h1 => hh p cn h1 (by rw [hf.cmds]; exact List.mem_singleton.mpr rfl)) hc.flag
+  exact ⟨a, a', hres, hpar, hset, hset'⟩
+
 /-- both switches of the default configuration are switches in the sense of `help_same_page` -/
 example : (S "-h").head? = some '-' ∧ (S "--help").head? = some '-' := by decide
 
@@ -389,5 +472,97 @@ example : (findPath demo.ctx demo.cmds [S "server", S "add"]).map (·.2.name) = 
 /-- `help server add` and `server add --help` look at the same leading tokens -/
 example : lead (stripHelp [S "help", S "server", S "add"]) = lead (stripHelp [S "server", S "add", S "--help"]) := by
   decide
+
+/-! ## Non-vacuity of `help_same_page_default`: a default-configuration application -/
+
+/-- the global option `--help` / `-h` as every format sees it -/
+def pHelp : Opt :=
+  { long := S "help", short := some (S "h"), accepts := false, valReq := false, valOpt := false, multi := false,
+    ty := .string, nullable := false, default := .scalar .none }
+def pCommandArg : Arg :=
+  { name := S "command", required := false, multi := true, ty := .string, nullable := false, default := .list [] }
+def pNameArg : Arg :=
+  { name := S "name", required := false, multi := false, ty := .string, nullable := false, default := .scalar .none }
+def dHelp : Cmd :=
+  .mk helpName [] true false { cmds := [{ name := helpName, aliases := [] }], args := [pCommandArg], opts := [pHelp] } false []
+def dAdd : Cmd :=
+  .mk (S "add") [] false false
+    { cmds := [{ name := S "server", aliases := [S "srv"] }, { name := S "add", aliases := [] }], args := [pNameArg],
+      opts := [pHelp] } false []
+def dServer : Cmd :=
+  .mk (S "server") [S "srv"] false false
+    { cmds := [{ name := S "server", aliases := [S "srv"] }], args := [], opts := [pHelp] } false [dAdd]
+/-- `help` (shaped as `DefaultApplicationConfig` builds it), and `server` with its sub-command `add` -/
+def dApp : List Cmd := [dHelp, dServer]
+def dConv : Conv := { intOf := fun _ => none, floatOf := fun _ => none }
+
+theorem dApp_tree (c : Cmd) (h : InTree dApp c) : c = dHelp ∨ c = dServer ∨ c = dAdd := by
+  have hnil : ∀ x, ¬ InTree [] x := by
+    intro x hx
+    cases hx with
+    | here hm => cases hm
+    | sub hm _ => cases hm
+  have hadd : ∀ x, InTree [dAdd] x → x = dAdd := by
+    intro x hx
+    cases hx with
+    | here hm => exact List.mem_singleton.mp hm
+    | sub hm hs =>
+      have := List.mem_singleton.mp hm
+      subst this
+      exact absurd hs (hnil x)
+  cases h with
+  | here hm =>
+    simp only [dApp, List.mem_cons, List.not_mem_nil, or_false] at hm
+    rcases hm with rfl | rfl
+    · exact Or.inl rfl
+    · exact Or.inr (Or.inl rfl)
+  | sub hm hs =>
+    simp only [dApp, List.mem_cons, List.not_mem_nil, or_false] at hm
+    rcases hm with rfl | rfl
+    · exact absurd hs (hnil c)
+    · exact Or.inr (Or.inr (hadd c hs))
+
+theorem dApp_flag (sw : Str) (hsw : sw = S "-h" ∨ sw = S "--help") (c : Cmd) (h : InTree dApp c) :
+    FlagOf c.fmt sw := by
+  have hlong : ∀ d : Cmd, d = dHelp ∨ d = dServer ∨ d = dAdd → LongOK d.fmt pHelp := by
+    intro d hd
+    rcases hd with rfl | rfl | rfl <;> exact ⟨rfl, by decide, by decide⟩
+  have hshort : ∀ d : Cmd, d = dHelp ∨ d = dServer ∨ d = dAdd → ShortOK d.fmt pHelp 'h' := by
+    intro d hd
+    rcases hd with rfl | rfl | rfl <;> exact ⟨rfl, rfl⟩
+  have hc := dApp_tree c h
+  rcases hsw with rfl | rfl
+  · exact ⟨pHelp, rfl, rfl, rfl, Or.inr ⟨'h', by decide, rfl, hshort c hc⟩⟩
+  · exact ⟨pHelp, rfl, rfl, rfl, Or.inl ⟨rfl, hlong c hc⟩⟩
+
+theorem dHelp_helpCmd (sw : Str) (hsw : sw = S "-h" ∨ sw = S "--help") : HelpCmd dHelp sw :=
+  { name := rfl, named := rfl, leaf := rfl,
+    fmt := ⟨{ name := helpName, aliases := [] }, pCommandArg, rfl, rfl, rfl, rfl, rfl, rfl, rfl⟩,
+    flag := dApp_flag sw hsw dHelp (.here (by simp [dApp])) }
+
+/-- all hypotheses of `help_same_page_default` hold for `help server add` / `server add --help`
+and `server add -h` on this application -/
+theorem dApp_same_page (sw : Str) (hsw : sw = S "-h" ∨ sw = S "--help") :
+    helpTarget dConv dApp [S "help", S "server", S "add"] = helpTarget dConv dApp [S "server", S "add", sw] :=
+  help_same_page_default dConv dApp [S "server", S "add"] sw dHelp (by decide)
+    (by
+      intro p cn h1 h2
+      simp only [List.head?_cons, Option.some.injEq] at h1
+      have h3 : cn = { name := helpName, aliases := [] } := List.mem_singleton.mp h2
+      subst h1 h3
+      decide)
+    hsw rfl (dHelp_helpCmd sw hsw) (dApp_flag sw hsw)
+
+def okIs (r : Except Err (Option Target)) (t : Target) : Bool :=
+  match r with
+  | .ok (some x) => x == t
+  | _ => false
+
+/-- ... and the page both spellings show is the page of `server add` (the model evaluated) -/
+example : okIs (helpTarget dConv dApp [S "help", S "server", S "add"]) (.cmd [S "server", S "add"]) = true ∧
+    okIs (helpTarget dConv dApp [S "server", S "add", S "--help"]) (.cmd [S "server", S "add"]) = true ∧
+    okIs (helpTarget dConv dApp [S "srv", S "add", S "-h"]) (.cmd [S "server", S "add"]) = true ∧
+    okIs (helpTarget dConv dApp [S "help"]) .app = true ∧ okIs (helpTarget dConv dApp [S "--help"]) .app = true := by
+  decide +kernel
 
 end Clikit.Props.C13
